@@ -226,7 +226,8 @@ PROPS = {
                 "the reference predicts for an isolated first run with its input; its slice of the log satisfies C02's dataflow check (no foreign or "
                 "stale data); the DAG dumps of both prepared workflows are unchanged after all runs. A third of the histories "
                 "runs under 1-2 held schedule points (half of them where a run evaluates expressions); a sixth is the motif 'one-of resolved through different "
-                "alternatives in overlapping runs' with every evaluation stretched by 3-10 ms. non-trivial = two runs overlap in time or a "
+                "alternatives in overlapping runs' with every evaluation stretched by 3-10 ms; an eighth is the motif 'loop whose parallelism is the run's input' "
+                "(no run may execute more items at once than its own bound); in a third of the histories every preparation comes from one parsed object and one executor. non-trivial = two runs overlap in time or a "
                 "run follows a failed / cancelled one",
         "quick": {"cases": 720, "shards": 12, "shrinktime": "40s"},
         "thorough": {"cases": 12000, "shards": 16, "shrinktime": "180s", "timeout_s": 3300},
